@@ -21,7 +21,9 @@ def inst(**kw):
 # property -> tier -> list of (name, instance, harness options, simulate)
 PLANS = {
     "C01": {
-        "quick": [("c01q", inst(LeafFam="<-C01LeavesQ", MaxLeaves=2, MaxCalls=3), {"clones": 0}, None)],
+        "quick": [("c01q", inst(LeafFam="<-C01LeavesQ", MaxLeaves=2, MaxCalls=3), {"clones": 0}, None),
+                  # the statement quantifies over the std and the no_std + spin-lock build
+                  ("c01nq", inst(LeafFam="<-C01LeavesQ", MaxLeaves=2, MaxCalls=2, HasStd=False), {"nostd": True}, None)],
         "thorough": [("c01t", inst(LeafFam="<-C01LeavesT", MaxLeaves=2, MaxCalls=4), {"clones": 1}, None),
                      ("c01n", inst(LeafFam="<-C01LeavesQ", MaxLeaves=2, MaxCalls=3, HasStd=False), {"nostd": True}, None),
                      ("c01t3", inst(LeafFam="<-C01Leaves3", MaxLeaves=3, MaxCalls=5), {"clones": 0},
